@@ -471,6 +471,10 @@ def check_psf(ctx, rec, hy, wl):
     pup = sample_pupil(ctx.lens, hy, wl, N, rec)
     if pup is None:
         return
+    try:        # an unrelated single-ray trace sits in the surface records when the analysis starts: it must not matter
+        ctx.lens.trace_generic(0.0, 0.37, 0.21, -0.45, wl)
+    except Exception:
+        pass
     lib = FFTPSF(ctx.lens, (0.0, hy), wl, num_rays=N, grid_size=g)     # an exception here is a library violation
     psf = np.asarray(lib.psf)
     pup = choose_law(ctx, rec, pup, psf)
@@ -572,6 +576,10 @@ def check_mtf(ctx, rec, wl, hys):
         if p is None:
             return
         pups.append(p)
+    try:
+        ctx.lens.trace_generic(0.0, 0.37, 0.21, -0.45, wl)
+    except Exception:
+        pass
     lib = FFTMTF(ctx.lens, fields=[(0.0, hy) for hy in hys], wavelength=wl, num_rays=N, grid_size=g)
     nu_c, nu_lib = ctx.nu_c(wl), ctx.nu_c_lib(wl)
     # cut-off
